@@ -605,6 +605,13 @@ def check_shortcuts(facts, rep, dt):
             z = next((v for t, v in cs if t == 'is_zero_cob(arg1)'), None)
             sp = next((v for t, v in cs if t == 'should_part_eval(arg1)'), None)
             others = [(t, v, a) for (t, v, a) in conds if sk(t).replace('&', '').replace('*', '') not in ('is_zero_cob(arg1)', 'should_part_eval(arg1)')]
+            # the product over the components written as an explicit loop: iterator bookkeeping is not a shortcut condition
+            loop_form = False
+            rs = re.sub(r'#\d+\.\d+', '', show(ret, -1000))
+            if re.match(r'(from\(empty\(\)\)|combine\()', rs) and all(re.match(r'discr\(next\(', sk(t)) for t, v, a in others) \
+                    and (rs.startswith('from(empty())') or 'part_eval(' in rs):
+                loop_form = True
+                others = []
             kind = None
             if r[0] == 'call':
                 nm = r[1].split('::')[-1]
@@ -617,6 +624,9 @@ def check_shortcuts(facts, rep, dt):
             inst = 'Cob::part_eval|%s [%s]' % (kind, ', '.join('%s=%s' % (t[:50], v) for t, v in cs))
             if not others and ((kind == 'zero' and z not in (None, 0)) or (kind == 'self' and z == 0 and sp == 0) or (kind == 'fold' and z == 0 and sp not in (None, 0))):
                 rep.ok('E9.R7-shortcuts-justified', inst, {'zero': 'is_zero_cob => 0 (R5)', 'self': 'nothing to reduce (R4)', 'fold': 'product of the component evaluations'}[kind])
+                continue
+            if loop_form and z == 0 and sp not in (None, 0):
+                rep.ok('E9.R7-shortcuts-justified', 'Cob::part_eval|loop over the components', 'product of the component evaluations')
                 continue
             if kind == 'fold' or kind == 'self' and not others:
                 rep.ok('E9.R7-shortcuts-justified', inst, 'evaluated component-wise / returned unchanged')
